@@ -674,3 +674,10 @@ Proof.
   - rewrite E. eapply Hb; eauto.
   - rewrite Hz. reflexivity.
 Qed.
+
+Theorem run_categories_counters_kept e o names c r :
+  run_categories e o names c = Some r ->
+  forall u inf', alookup u (s_urrs (c_s (fst r))) = Some inf' ->
+    (exists inf, alookup u (s_urrs (c_s c)) = Some inf /\ ui_seqn inf' = ui_seqn inf) \/
+    (created_by o u /\ ui_seqn inf' = 0).
+Proof. intros H. exact (proj2 (run_categories_kept e o names c r H)). Qed.
